@@ -66,7 +66,7 @@ def run_check(prop, tree, tier='quick', runs=None, seed=None):
             'wall': round(time.time() - t0, 1), 'tail': r.stdout[-1200:] if r.returncode == 2 else ''}
 
 
-def vet(src, checks, keep=None, baseline=True, tier='quick', runs=None):
+def vet(src, checks, keep=None, baseline=True, tier='quick', runs=None, seed=None):
     meta = json.load(open(os.path.join(src, 'meta.json')))
     prop = meta['property']
     tag = (keep or meta.get('id') or os.path.basename(src.rstrip('/'))).replace('/', '_')
@@ -99,7 +99,7 @@ def vet(src, checks, keep=None, baseline=True, tier='quick', runs=None):
         sh([PY, os.path.join(V, 'tools', 'setup.py')], env=dict(os.environ, VERIF_REPO=tree), cwd=V)
         rep['checks'] = {}
         for c in checks:
-            res = run_check(c, tree, tier=tier, runs=runs)
+            res = run_check(c, tree, tier=tier, runs=runs, seed=seed)
             rep['checks'][c] = res
             print('check %s on mutant: exit %d  %s  %s' % (c, res['exit'], res['summary'], res['first']))
             if res['exit'] == 2:
@@ -140,6 +140,7 @@ def main():
     checks = opt('--checks')
     tier = opt('--tier', 'quick')
     runs = opt('--runs')
+    seed = opt('--seed')
     allc = '--all-checks' in a
     nob = '--no-baseline' in a
     a = [x for x in a if not x.startswith('--')]
@@ -149,7 +150,7 @@ def main():
         cl = ALL if allc else ((checks.split(',') if checks else []) or [prop])
         if prop in cl:
             cl = [prop] + [c for c in cl if c != prop]
-        rep, ok = vet(src, cl, keep=keep, baseline=not nob, tier=tier, runs=int(runs) if runs else None)
+        rep, ok = vet(src, cl, keep=keep, baseline=not nob, tier=tier, runs=int(runs) if runs else None, seed=seed)
         return 0 if ok else 1
     if a[0] == 'rerun':
         rows = []
@@ -159,12 +160,23 @@ def main():
                 continue
             meta = json.load(open(os.path.join(d, 'meta.json')))
             cl = checks.split(',') if checks else meta.get('expected_checks') or [meta['property']]
-            rep, ok = vet(d, cl, keep=None, baseline=False, tier=tier, runs=int(runs) if runs else None)
+            rep, ok = vet(d, cl, keep=None, baseline=False, tier=tier, runs=int(runs) if runs else None, seed=seed)
             det = {c: v['exit'] for c, v in rep.get('checks', {}).items()}
-            rows.append((name, meta['property'], det))
+            hits = {c: v['summary'] for c, v in rep.get('checks', {}).items()}
+            rows.append((name, meta['property'], det, hits))
             print('== %s (%s): %s' % (name, meta['property'], det))
-        json.dump(rows, open(os.path.join(V, 'selftest', 'seeded_last.json'), 'w'), indent=1)
+        json.dump({'seed': seed or 0, 'tier': tier, 'rows': rows}, open(os.path.join(V, 'selftest', 'seeded_last%s.json' % ('' if not seed else '_seed' + seed)), 'w'), indent=1)
         return 0 if all(all(x == 1 for x in r[2].values()) for r in rows) else 1
+    if a[0] == 'table':
+        print('| seeded change | property | needs | caught by (quick tier) | not caught by |')
+        print('|---|---|---|---|---|')
+        for d in sorted(glob.glob(os.path.join(V, 'seeded', '*'))):
+            m = json.load(open(os.path.join(d, 'meta.json')))
+            det = m.get('detection', {})
+            yes = [c for c, v in det.items() if v['exit'] == 1]
+            no = [c for c, v in det.items() if v['exit'] == 0]
+            print('| `%s` | %s | %s | %s | %s |' % (m['id'], m['property'], (m.get('needs') or '').replace('|', '/').replace('\n', ' ')[:260], ', '.join(yes) or '-', ', '.join(no) or '-'))
+        return 0
     print(__doc__)
     return 2
 
